@@ -106,6 +106,22 @@ fn main() {
         }
         t
     });
+    // S8 structured radicands (word limits, word-crossing products, patterns at every length, carry chains,
+    // all-ones words) x scales of both parities / residues x written-out trailing zeros
+    let st = props::alpha::structured_ints(tier.pick(60, 200), tier.pick(24, 60), run.seed());
+    let p8: Vec<u64> = tier.pick(vec![1, 5, 16, 19, 38, 100], vec![1, 2, 5, 9, 16, 18, 19, 20, 37, 38, 39, 77, 100, 101]);
+    run.bound("S8_structured_integers", st.len());
+    run.bound("S8_precisions", json!(p8));
+    run.par("S8 structured radicands", st.len(), |i| {
+        let mut t = Tally::default();
+        for x in props::alpha::structured_decimals(&st[i..=i], &[0, 1, 2, -1, -3], &[0, 1, 12]) {
+            if x.n.sign() == num_bigint::Sign::Minus && 2 == 2 {
+                continue;
+            }
+            sweep(&run, 2, &x, &p8, false, &mut t);
+        }
+        t
+    });
     // S7 giant precisions: near-powers from below and above, far beyond the stated p <= 150
     let giant: Vec<u64> = tier.pick(vec![819, 1000], vec![500, 819, 1000, 2730, 3000]);
     run.bound("S7_giant_precisions", json!(giant));
